@@ -61,6 +61,12 @@ def verdictOp : List String → Option String
   | ["ssa.assert", arm, k, s] => do
     let k ← parseEnum XKey.all k; let s ← parseEnum SsaSig.all s
     pure (if arm == "py" then SsaAssert.py k s else SsaAssert.bind k s).token
+  | ["dsa.sign", arm, q, m, k] => do
+    let q ← parseEnum Scalar.all q; let m ← parseEnum MsgLen.all m; let k ← parseEnum PubArg.all k
+    pure (if arm == "py" then DsaSign.py q m k else DsaSign.bind q m k).token
+  | ["ssa.sign", arm, q, a] => do
+    let q ← parseEnum Scalar.all q; let a ← parseEnum MsgLen.all a
+    pure (if arm == "py" then SsaSign.py q a else SsaSign.bind q a).token
   | ["sp.scan", arm, c] => do
     let c ← parseEnum SpOutput.all c
     pure (if arm == "py" then SpScan.py c else SpScan.bind c).token
